@@ -160,7 +160,7 @@ stats_struct! {
     nonrequired_destroyed, dead_handle_drops, sweeps, count_obs, weak_obs, links_obs,
     links_entries, upgrades_some, upgrades_none, wprobes, wprobes_dead, wprobes_lenient,
     deref_obs, deref_after_destroy_obs, dead_clones_attempted, dead_drops, weak_escapes, weak_escapes_dead, handle_escapes, c14_obs, c14_after_unadopt_obs, mem_obs, script_actions, script_skips,
-    nested_depth_max, panics_scripted, consume_ok, consume_noop, clone_bombs, elide_takes, table_orders,
+    nested_depth_max, panics_scripted, consume_ok, consume_noop, clone_bombs, clone_evictions, elide_takes, table_orders,
 }
 
 pub struct Cfg {
